@@ -62,7 +62,11 @@ class Section:
         self.opts = opts
         self.lines = []
         self.id = opts.get('id')
-        self.tags = [t for t in opts.get('tags', '').split(',') if t]
+        _t = opts.get('tags', '')
+        self.tags = [t for t in _t.replace(';', ',').split(',') if t]
+        # tags after ';' are SECONDARY: the property's proof uses this clause, but a failure of the clause alone does
+        # not show that property broken (it is primary for another one) -- such a failure needs a concrete input
+        self.secondary = [t for t in _t.split(';', 1)[1].split(',') if t] if ';' in _t else []
         self.role = opts.get('role', 'hint' if kind in ('entry', 'after', 'before') else 'clause')
         self.applied = False
         self.enabled = True
@@ -119,6 +123,7 @@ class UnitGen:
         self.files = {}
         self.disabled = set(disabled or [])
         self.canary = None  # fn id -> append assert(false)
+        self.force_assumed = set()  # fn ids whose body is outside the verifier's subset on this tree: contract assumed, reported
 
     def names_baseline(self):
         if not hasattr(self, '_names'):
@@ -468,6 +473,9 @@ class UnitGen:
         return res
 
     def gen_fn(self, g, fd):
+        if fd.id in self.force_assumed and fd.mode == 'verify':
+            fd.mode = 'assumed'
+            g.demoted = getattr(g, 'demoted', []) + [fd.id]
         rf = self.rf(fd.file)
         it = rf.find('fn', fd.path)
         fp = FnParts(rf, it)
@@ -535,6 +543,40 @@ class UnitGen:
                         g.lost_anchors.append('%s.rewrite.RW15lits' % fid)
             if fd.opts.get('entry') == '1':
                 text = self.rw_entry(text, rws)
+            if fd.opts.get('split') == '1':
+                # RW18: <recv>.splitn(<n>, <pat>).collect::<Vec<&str>>() -> vsplitn_collect(<recv>, <n>, <pat>)
+                #       <recv>.split(<pat>).collect::<Vec<&str>>()        -> vsplit_collect(<recv>, <pat>)
+                def rw18(m):
+                    new = 'v%s_collect(%s, %s)' % (m.group('fn'), m.group('recv'), m.group('args').strip())
+                    rws.append(('RW18', m.group(0), new))
+                    return new
+                text = self.masked_sub(r'(?<![\w.])(?P<recv>[A-Za-z_]\w*)\s*\.\s*(?P<fn>splitn|split)\((?P<args>[^()]*)\)\s*\.\s*collect::<Vec<&str>>\(\)', rw18, text)
+                # RW18b: let <v> = <recv>.split(<pat>);  (a lazy Split iterator, later consumed by one `for`) -> the collected Vec
+                def rw18b(m):
+                    new = '= vsplit_collect(%s, %s);' % (m.group('recv'), m.group('args').strip())
+                    rws.append(('RW18b', m.group(0), new))
+                    return new
+                text = self.masked_sub(r'=\s*(?P<recv>[A-Za-z_]\w*)\s*\.\s*split\((?P<args>[^()]*)\);', rw18b, text)
+                # RW19: for <x> in <vec> {  ->  for <x> in vit: <vec> {   (names Verus' ghost iterator; no executable change)
+                def rw19(m):
+                    new = 'for %s in vit: %s' % (m.group('x'), m.group('v'))
+                    rws.append(('RW19', m.group(0), new))
+                    return new
+                if fd.opts.get('forwhile') == '1':
+                    # RW19w: for <x> in <vec> { B }  ->  let mut vi: usize = 0; while vi < <vec>.len() { let <x> = <vec>[vi]; vi = vi + 1; B }
+                    # (Verus: "for-loops do not yet support continue"; the index is advanced before B, so `continue` keeps its meaning)
+                    mt = mask(text)
+                    m19 = re.search(r'\bfor\s+(?P<x>[a-z_]\w*)\s+in\s+(?P<v>[a-z_]\w*)(?=\s*\{)', mt)
+                    if m19:
+                        x, v = m19.group('x'), m19.group('v')
+                        brace = mt.index('{', m19.end())
+                        head = 'let mut vi: usize = 0; while vi < %s.len()' % v
+                        first = ' let %s = %s[vi]; vi = vi + 1;' % (x, v)
+                        rws.append(('RW19w', text[m19.start():m19.end()], head))
+                        rws.append(('RW19w', '', first))
+                        text = text[:m19.start()] + head + text[m19.end():brace + 1] + first + text[brace + 1:]
+                else:
+                    text = self.masked_sub(r'\bfor\s+(?P<x>[a-z_]\w*)\s+in\s+(?P<v>[a-z_]\w*)(?=\s*\{)', rw19, text)
             for sec in fd.sections:
                 if sec.kind == 'rewrite':
                     rid, pat, rep = sec.args
@@ -598,7 +640,7 @@ class UnitGen:
             if cid in g.clauses:
                 raise ExtractError('duplicate clause id %s' % cid)
             tags = sec.tags or fd.tags
-            g.clauses[cid] = dict(fn=fid, kind=sec.kind, tags=tags, role=sec.role,
+            g.clauses[cid] = dict(fn=fid, kind=sec.kind, tags=tags, role=sec.role, secondary=list(getattr(sec, 'secondary', [])),
                                   text='\n'.join(l.strip() for l in sec.lines if l.strip()),
                                   enabled=cid not in self.disabled, mode=fd.mode)
             return cid, tags
